@@ -77,5 +77,9 @@ def _install_module(name, module):
         parent_module = importlib.import_module(parent_name)
     except ModuleNotFoundError:
         parent_module = types.ModuleType(parent_name)
+        # Mark it as a package, so that "from a.b import c" works.
+        parent_module.__path__ = []
         _install_module(parent_name, parent_module)
-        setattr(parent_module, child_name, module)
+
+    setattr(parent_module, child_name, module)
+    sys.modules[name] = module
